@@ -116,6 +116,8 @@ def tree_path(I, res, prop, scen_name):
             for b in bs:
                 if b["id"] not in ch:
                     cx.viol("tree:branch-not-child", "branch %s is not a child of step %s" % (b["id"], n["id"]))
+                if next_of(b["id"]) is not None:
+                    cx.viol("tree:branch:dangling-next", "branch %s has a next link (%s): branches of a step run side by side" % (b["id"], next_of(b["id"])))
             check_chain(n["id"], n.get("acts") or [], what="acts")
         if kind in ("step", "act"):
             for c in n.get("catches") or []:
